@@ -533,8 +533,9 @@ def c10(ctx, rep):
     f_a = swa.find_method("anonymize")
     rep.analysed(f_a)
     lp = ("param", f_a.mparams[1])
+    f_sp = p.find_function("_split_line")
+    SPLIT = ("call", ("global", f_sp.module.name, f_sp.name), (lp,), ())
     mod = f_a.module.name
-    SPLIT = ("call", ("global", mod, "_split_line"), (lp,), ())
     n_sub = 0
     for path in A.paths(f_a).paths:
         if not path.feasible():
